@@ -388,6 +388,19 @@ class Inliner:
                 if m and m.group(1) in tp and tp[m.group(1)].get("s"):
                     path = "%s::<%s as %s>::%s" % (self.facts.crate, tp[m.group(1)]["s"], m.group(2), m.group(3))
                     c = self.facts.consts.get(path)
+                    if c is not None and not (len(c["blocks"]) == 1 and len(c["blocks"][0]["stmts"]) == 1):
+                        # a computed constant (`usize::MAX - 1`): evaluate its straight-line body
+                        try:
+                            from mir import Fn
+                            from body import BodyInfo
+                            bi = BodyInfo(Fn(dict(c, argc=0), self.facts))
+                            v = bi.local_value(0, {}) if 0 not in bi.dyn else None
+                        except Exception:
+                            v = None
+                        if v is not None and v[0] == "const" and v[1] is not None and str(v[1]).lstrip("-").isdigit():
+                            x["int"] = str(v[1])
+                            x["desc"] = str(v[1])
+                        return
                     if c is not None and len(c["blocks"]) == 1 and len(c["blocks"][0]["stmts"]) == 1:
                         st = c["blocks"][0]["stmts"][0]
                         op = (st.get("rv") or {}).get("op") if (st.get("rv") or {}).get("k") == "use" else None
@@ -447,15 +460,40 @@ class Inliner:
                     fnj = rv["op"]["fn"]
                     if self.facts.fn(fnj["def"]) is not None and len((rv["op"].get("ty") or {}).get("fnin") or ()) == len(t["args"]) and fnj["def"] not in [c["def"] for c in cands]:
                         cands.append(fnj)
+        # non-capturing closures coerced to fn pointers (`let step: fn(..) = |links, link| ..;`)
+        for blk in blocks:
+            for st in blk["stmts"]:
+                rv = st.get("rv") or {}
+                if st["k"] == "assign" and rv.get("k") == "cast" and str(rv.get("ck", "")).startswith("Coerce:ClosureFnPointer"):
+                    cty = self._op_ty(rv["op"], locals_) or {}
+                    cf = self.facts.fn(cty.get("closure") or "")
+                    if cf is not None and cf.argc == len(t["args"]) + 1 and cty["closure"] not in [c["def"] for c in cands]:
+                        cands.append({"def": cty["closure"], "crate": self.facts.crate, "full": cty["closure"], "local": True, "args": [], "targs": [], "_closure": cty})
         if not cands:
             return []
         span = {k: t.get(k) for k in ("file", "line", "exp", "macro")}
         new = []
         targets = []
         for i, fnj in enumerate(cands):
-            nt = {"k": "call", "callee": copy.deepcopy(fnj), "fnop": {"k": "const", "ty": self.UNK_TY, "desc": fnj["def"], "fn": copy.deepcopy(fnj)},
-                  "args": copy.deepcopy(t["args"]), "argtys": copy.deepcopy(t.get("argtys") or []), "dst": copy.deepcopy(t["dst"]), "target": t["target"], "unwind": t["unwind"], **span}
-            blocks.append({"cleanup": blocks[b]["cleanup"], "stmts": [], "term": nt})
+            stmts = []
+            args = copy.deepcopy(t["args"])
+            if fnj.get("_closure"):
+                # the closure's body takes its (empty) environment first
+                el = len(locals_)
+                locals_.append({"ty": copy.deepcopy(fnj["_closure"]), "name": None})
+                rl = len(locals_)
+                ety = (self.facts.fn(fnj["def"]).locals[1].get("ty") or {})
+                locals_.append({"ty": copy.deepcopy(ety), "name": None})
+                stmts.append({"k": "assign", "dst": {"l": el, "p": []}, "rv": {"k": "agg", "ak": "closure", "name": fnj["def"], "variant": "", "vidx": 0, "fields": [], "ops": []}, **span})
+                if ety.get("k") in ("ref", "refmut"):
+                    stmts.append({"k": "assign", "dst": {"l": rl, "p": []}, "rv": {"k": "ref", "mut": ety.get("k") == "refmut", "pl": {"l": el, "p": []}}, **span})
+                    args = [{"k": "move", "pl": {"l": rl, "p": []}}] + args
+                else:
+                    args = [{"k": "move", "pl": {"l": el, "p": []}}] + args
+            cj = {k2: v2 for k2, v2 in fnj.items() if k2 != "_closure"}
+            nt = {"k": "call", "callee": copy.deepcopy(cj), "fnop": {"k": "const", "ty": self.UNK_TY, "desc": cj["def"], "fn": copy.deepcopy(cj)},
+                  "args": args, "argtys": copy.deepcopy(t.get("argtys") or []) if not fnj.get("_closure") else [], "dst": copy.deepcopy(t["dst"]), "target": t["target"], "unwind": t["unwind"], **span}
+            blocks.append({"cleanup": blocks[b]["cleanup"], "stmts": stmts, "term": nt})
             targets.append((str(i), len(blocks) - 1))
             new.append(len(blocks) - 1)
         blocks.append({"cleanup": blocks[b]["cleanup"], "stmts": [], "term": t})
@@ -1075,6 +1113,34 @@ class Inliner:
         blocks[b]["term"] = dict(goto, adaptor="array-next")
         return []
 
+    def _expand_option_take(self, b, t, callee, locals_, blocks):
+        """`place.take()` on an Option borrowed in this block (`_r = &mut place; Option::take(move _r)`): the old value is
+        handed out and `None` is left behind -- written as the two assignments, so that a field of a local aggregate
+        stepped this way (an iterator struct's `self.pending.take()`) is followed like a plain assignment."""
+        args = t["args"]
+        if len(args) != 1 or args[0]["k"] not in ("move", "copy") or args[0]["pl"]["p"] or t.get("target") is None:
+            return None
+        rl = args[0]["pl"]["l"]
+        found = None
+        for s_ in blocks[b]["stmts"]:
+            if s_["k"] == "assign" and s_["dst"] == {"l": rl, "p": []}:
+                found = s_["rv"]
+        if found is None or found.get("k") != "ref" or found.get("mut") is False:
+            return None
+        pl = found["pl"]
+        # only places that are fields of something reached from a local or `self` (not box fields: those are events)
+        if not pl["p"] or not any(isinstance(e, dict) and "f" in e for e in pl["p"]):
+            return None
+        tyj = (callee.get("targs") or [{}])[0]
+        if tyj.get("dp", 0) or tyj.get("nd"):
+            return None      # (a payload with drop glue: keep the library call)
+        span = {k: t.get(k) for k in ("file", "line", "exp", "macro")}
+        none = {"k": "agg", "ak": "adt", "name": "core::option::Option", "variant": "None", "vidx": 0, "fields": [], "ops": []}
+        blocks[b]["stmts"].append({"k": "assign", "dst": copy.deepcopy(t["dst"]), "rv": {"k": "use", "op": {"k": "move", "pl": copy.deepcopy(pl)}}, **span})
+        blocks[b]["stmts"].append({"k": "assign", "dst": copy.deepcopy(pl), "rv": none, **span})
+        blocks[b]["term"] = {"k": "goto", "target": t["target"], **span, "adaptor": "option-take"}
+        return []
+
     def _expand_option_as_ref_iter(self, b, t, callee, locals_, blocks):
         """`opt.iter()`: modelled as the `Option<&T>` it hands out once (`Some(&payload)` / `None`); `next` on it is
         expanded like `Option::into_iter`'s."""
@@ -1403,6 +1469,10 @@ class Inliner:
                 return r
         if callee is not None and callee["def"] == "core::iter::Iterator::for_each":
             return self._expand_for_each(b, t, callee, locals_, blocks)
+        if callee is not None and callee["def"] == "core::option::Option::<T>::take":
+            r = self._expand_option_take(b, t, callee, locals_, blocks)
+            if r is not None:
+                return r
         if callee is not None and callee["def"] == "core::option::Option::<T>::iter":
             r = self._expand_option_as_ref_iter(b, t, callee, locals_, blocks)
             if r is not None:
@@ -1689,6 +1759,12 @@ class Inliner:
         for blk in fn.blocks:
             for st in blk["stmts"]:
                 if st["k"] == "assign" and st["dst"]["l"] in alias and st["dst"]["p"] and st["dst"]["p"][0] == "*" and any(isinstance(e, dict) and "f" in e for e in st["dst"]["p"]):
+                    r = True
+                # `&mut self.field` (handed to `Option::take`, `mem::replace`, ...) steps the field as well
+                rv = st.get("rv") or {}
+                if st["k"] == "assign" and rv.get("k") == "ref" and rv.get("mut") is not False and rv["pl"]["l"] in alias and rv["pl"]["p"] and rv["pl"]["p"][0] == "*" \
+                        and any(isinstance(e, dict) and "f" in e for e in rv["pl"]["p"]) \
+                        and str((fn.locals[st["dst"]["l"]].get("ty") or {}).get("s", "")).startswith("&mut core::option::Option<"):
                     r = True
         cache[fn.path] = r
         return r
@@ -2260,6 +2336,8 @@ class Inliner:
             return None, None, None
         # a generic function instantiated with concrete types: remember what its type parameters stand for
         names, targs = f.f.get("tparams") or [], callee.get("targs") or []
+        if callee.get("trait") and len(targs) == len(names) + 1:
+            targs = targs[1:]      # a trait method's generic args start with Self; the impl's own method does not list it
         if names and len(names) == len(targs):
             outer = (self_subst or {}).get("_tp") or {}
             tp = {}
@@ -2267,6 +2345,8 @@ class Inliner:
                 if ty.get("k") == "param":
                     if ty.get("s") in outer:
                         tp[n_] = outer[ty["s"]]
+                    elif ty.get("s") == "Self" and self_subst is not None and self_subst.get("adt"):
+                        tp[n_] = {k2: v2 for k2, v2 in self_subst.items() if k2 != "_tp"}
                 elif ty.get("adt"):
                     tp[n_] = ty
             if tp:
